@@ -36,7 +36,7 @@ def contracts():
         )
     # T-CLOSURE: a pure projection closure gets its parameter type and `ensures result == body` (derived from its own text)
     c["set_owner"].rewrites += [
-        ("T-FMT", r"format!\(\"\{e\}\"\)", "crate::opaque_string()"),
+
         ("T-CLOSURE", r"user\.map\(\|(\w+)\| (\w+\.\w+)\)", r"user.map(|\1: nix::unistd::User| -> (r__: nix::unistd::Uid) ensures r__ == \2 { \2 })"),
         ("T-CLOSURE", r"grp\.map\(\|(\w+)\| (\w+\.\w+)\)", r"grp.map(|\1: nix::unistd::Group| -> (r__: nix::unistd::Gid) ensures r__ == \2 { \2 })"),
     ]
